@@ -339,10 +339,6 @@ Grid::simplify(Grid_Generator_System& ggs, Dimension_Kinds& dim_kinds) {
         pivot.expr.negate(dim, num_columns);
       }
 
-      // Factor this row out of the preceding rows.
-      reduce_reduced<Grid_Generator_System>
-        (ggs.sys.rows, dim, pivot_index, dim, num_columns - 1, dim_kinds);
-
       ++pivot_index;
     }
   }
@@ -361,6 +357,21 @@ Grid::simplify(Grid_Generator_System& ggs, Dimension_Kinds& dim_kinds) {
     PPL_ASSERT(ret == true);
 #endif
     ggs.sys.rows.resize(pivot_index);
+  }
+
+  // Since we are reducing the system to "strong minimal form",
+  // factor each pivot row out of the preceding rows.
+  // Note: this can only be done here, when the system is triangular,
+  // because each call to reduce_parameter_with_line() above scales all
+  // the points and parameters, but none of the lines: a row that was
+  // factored before such a scaling would no longer be reduced with
+  // respect to the pivots that are lines.
+  for (dimension_type dim = 0, row_index = 0; dim < num_columns; ++dim) {
+    if (dim_kinds[dim] != GEN_VIRTUAL) {
+      reduce_reduced<Grid_Generator_System>
+        (ggs.sys.rows, dim, row_index, dim, num_columns - 1, dim_kinds);
+      ++row_index;
+    }
   }
 
   // Ensure that the parameter divisors are the same as the system
